@@ -279,7 +279,11 @@ func (f *Font) WidthsPDF() []float64 {
 	switch outlines := f.Outlines.(type) {
 	case *cff.Outlines:
 		for gid, g := range outlines.Glyphs {
-			widths[gid] = g.Width * f.FontMatrix[0]
+			fm := f.FontMatrix
+			if outlines.IsCIDKeyed() {
+				fm = outlines.FontMatrices[outlines.FDSelect(glyph.ID(gid))].Mul(fm)
+			}
+			widths[gid] = g.Width * fm[0]
 		}
 		return widths
 	case *glyf.Outlines:
